@@ -86,6 +86,52 @@ def status_write_latch(ctx, rid, fxt=None):
     ctx.ob(rid, CSR, "CSRStatus.do_finalize", "re = the write strobe, one cycle later", ok, "" if ok else f"{[(a.v, a.gtext()) for a in re_]}")
 
 
+def _placement_table(ctx, sg):
+    """_sort_gathered_items interpreted exactly (lxs/pyconst.py) on every list of 1..3 registers (and some of 4) whose locations
+    are automatic or fixed at 0, 1, 2 or 5, in both duid orders: [(kind, text)] of deviations from `every register exactly once,
+    fixed ones at their location, a clash refused`."""
+    import itertools
+    from .. import pyconst
+    from ..pyconst import NS, Native
+    filler = Native(lambda *a, name=None, **k: NS(name=name, n=None, fixed=False, duid=-1, size=1))
+    sets = [ns for k in (1, 2, 3) for ns in itertools.product((None, 0, 1, 2, 5), repeat=k)]
+    sets += [(0, 2, None, None), (3, None, 0, None), (None, None, 2, 2), (None, 0, None, 1), (1, None, None, 0)]
+    out, n_ev = [], 0
+    for ns in sets:
+        if any(n == len(ns) for n in ns):
+            continue        # a location equal to the number of registers: the list is one short (IndexError): refused either way
+        for rev in (False, True):
+            duids = [10 + i for i in range(len(ns))]
+            if rev:
+                duids.reverse()
+            items = [NS(name=f"csr{i}", n=n, fixed=n is not None, duid=d, size=8) for i, (n, d) in enumerate(zip(ns, duids))]
+            what = f"registers with locations {list(ns)} (duids {duids})"
+            try:
+                got = pyconst.call(sg, {"items": list(items)}, consts={"CSR": filler})
+            except pyconst.Unknowable as ex:
+                ctx.need(False, f"_sort_gathered_items cannot be interpreted on a constant register list ({ex})")
+            n_ev += 1
+            fixed = [n for n in ns if n is not None]
+            if len(set(fixed)) != len(fixed):
+                if got[0] != "raise":
+                    out.append(("clash", f"{what}: two registers fixed at one location are placed without an error"))
+                continue
+            if got[0] != "return" or not isinstance(got[1], list):
+                out.append(("lost", f"{what}: no placement is returned"))
+                continue
+            names = [x.get("name") if isinstance(x, NS) else None for x in got[1]]
+            for it in items:
+                if names.count(it["name"]) != 1:
+                    out.append(("lost", f"{what}: {it['name']} (location {it['n']}) appears {names.count(it['name'])} times in the placement {names}"))
+                    break
+            for it in items:
+                if it["n"] is not None and (it["n"] >= len(names) or names[it["n"]] != it["name"]):
+                    out.append(("fixed", f"{what}: {it['name']} is fixed at {it['n']} but the placement is {names}"))
+                    break
+    ctx.analysed["paths"] += n_ev
+    return out
+
+
 def run(ctx):
     ctx.rule("R1", "bank: re/we only under sel & (adr[:k] == i) (re <- bus.we, we <- bus.re), r <- dat_w[:size]; dat_r "
                    "zero first then selected word; sel = adr[k:] == address with the same k; memory window alike", min_sites=14)
@@ -353,6 +399,12 @@ def run(ctx):
     ok = any(isinstance(n, ast.Assign) and norm(n.targets[0]) == "variable_items" and norm(n.value) == "sorted(variable_items, key=lambda x: x.duid)"
              for n in ast.walk(sg))
     ctx.ob("R4", CSR, "_sort_gathered_items", "automatic items placed in duid order", ok, "" if ok else "variable items not sorted by duid", sg)
+    dev = _placement_table(ctx, sg)
+    for kind, role in (("lost", "every gathered register is placed exactly once (none dropped, none at two locations)"),
+                       ("fixed", "a register with a fixed location sits at that location"),
+                       ("clash", "two registers fixed at one location are refused (table)")):
+        bad = [d for d in dev if d[0] == kind]
+        ctx.ob("R4", CSR, "_sort_gathered_items", role, not bad, "" if not bad else f"{bad[0][1]} ({len(bad)} of the register sets)", sg)
     mg = cm_.func("_make_gatherer")
     ok = any(isinstance(n, ast.Assign) and norm(n.targets[0]) == "r" and norm(n.value) == "sorted(r, key=lambda x: x.duid)" for n in ast.walk(mg))
     ctx.ob("R4", CSR, "_make_gatherer", "gathered registers sorted by duid", ok, "" if ok else "gatherer order is run-dependent", mg)
